@@ -959,7 +959,7 @@ func TestVerifC27Fsm(t *testing.T) {
 	r := verifkit.Start(t, "C27", "fsm")
 	defer r.Finish()
 	r.SetRule("one codec per slot FSM command encoder (plain and Checked variants) and per exported apply-result codec: reflection-filled metadb payloads (edge-biased integers, hostile strings, nil/empty/short slices and byte payloads; JSON-carried commands with valid UTF-8) → decodeCommand reproduces the payload after the documented canonicalisation (runtime-meta normalisation, sorted/de-duplicated subscriber sets, canonical batch order), DecodeCommandHashSlots reports the expected slots and agrees with decodeCommand on acceptance, DecodeCommandInspection never panics; all strict prefixes; mutations; random bodies behind a valid header; huge lengths at every offset with allocation metering. Non-trivial = encoder accepted the value; distinct = (codec, phase, abstract payload shape).")
-	r.Assume("a process-wide TotalAlloc delta around a batch of decode calls (serial phase) over-approximates the allocation of each call")
+	r.Assume("the process-wide heap allocation counter (runtime/metrics /gc/heap/allocs:bytes) read around one decode call in the serial phase (no other harness goroutine allocating) over-approximates the allocation of that call")
 
 	var codecs []c27.Codec
 	covered := map[uint8]bool{}
@@ -986,7 +986,7 @@ func TestVerifC27Fsm(t *testing.T) {
 	r.Note("store_owned_fields_zeroed", "metadb.Channel{SubscriberMutationVersion,SubscriberCount,DirectoryProjectionState,DirectoryProjectionGeneration}, ChannelRuntimeMeta.DirectoryGeneration, PersonDirectoryTask.Generation have no wire tag (maintained by the store) and are generated as zero")
 	r.Note("prefix_policy", "TLV commands: a prefix ending on a top-level TLV boundary is a complete frame with fewer fields (documented forward-compatible format); accepted prefixes of that kind are counted, every other accepted prefix is a violation")
 
-	b := c27.Budget{Values: r.N(12, 400), MutationsPer: r.N(6, 20), HostileValues: r.N(1, 8), RandomInputs: r.N(250, 8000), MaxTruncs: r.N(80, 1600), HostileOffs: r.N(400, 1600), Workers: 6}
+	b := c27.Budget{Values: r.N(12, 250), MutationsPer: r.N(6, 20), HostileValues: r.N(1, 8), RandomInputs: r.N(250, 8000), MaxTruncs: r.N(80, 1600), HostileOffs: r.N(400, 1600), Workers: 6}
 	c27.Drive(r, codecs, b)
 
 	// extra: the TLV length field carries 32 bits; a frame whose only field
